@@ -422,10 +422,11 @@ func (x *Exec) staticCallInst(st *State, e *ast.CallExpr, fn *types.Func, inst *
 		}
 		saved := x.tsubst
 		if id != nil {
-			if inst, ok := x.info.Instances[id]; ok && sig.TypeParams() != nil {
+			osig := fn.Type().(*types.Signature)
+			if inst, ok := x.info.Instances[id]; ok && osig.TypeParams() != nil {
 				m := map[string]types.Type{}
-				for i := 0; i < sig.TypeParams().Len() && i < inst.TypeArgs.Len(); i++ {
-					m[sig.TypeParams().At(i).Obj().Name()] = inst.TypeArgs.At(i)
+				for i := 0; i < osig.TypeParams().Len() && i < inst.TypeArgs.Len(); i++ {
+					m[osig.TypeParams().At(i).Obj().Name()] = inst.TypeArgs.At(i)
 				}
 				x.tsubst = m
 			}
